@@ -8,7 +8,7 @@
    Optimisation levels, the header layout and the collector are compiler / ABI / other-property matters:
    for those the correspondence run (props/C18.py) is the check. *)
 From CelloV Require Import Generated Config ConfigProofs.
-From Coq Require Import List ZArith String.
+From Coq Require Import List Bool ZArith String.
 Import ListNotations.
 
 (* 1. one API call: with sound method caches, if no switch-guarded test succeeds, every two
@@ -67,7 +67,7 @@ Print Assumptions history_config_independent.
 
 Example history_config_independent_nonvacuous :
   no_error_path aseq Z aop abody [APush 1; APush 2; APushAt 9 (-1); AGet (-3); APop; ALen]%Z [] two_types = true /\
-  no_error_path unit nat dop dbody [DCall 0 "Len"; DCall 0 "Hash"; DCall 1 "Len"; DCall 0 "Len"]%string tt two_types = true.
+  no_error_path unit nat dop dbody [DCall 0 11; DCall 0 10; DCall 1 11; DCall 0 11] tt two_types = true.
 Proof. split; vm_compute; reflexivity. Qed.
 
 (* 3b. the weaker hypothesis actually needed: no *guarded* test succeeds (an unguarded throw such as
@@ -88,22 +88,23 @@ Proof. split; reflexivity. Qed.
 (* 4. Type.c alone: on a type whose filled slots are sound, any sequence of lookups returns the same
       instances with the cache (CELLO_CACHE == 1) as without; a freshly initialised type is sound.
       Needs that no two classes share a slot — re-checked on the wiring extracted from Type_Instance *)
-Theorem cache_transparent : forall (cs : list string) (t1 t2 : tyobj),
+Theorem cache_transparent : forall (cs : list cls) (t1 t2 : tyobj),
   cache_ok t1 -> cache_ok t2 -> tinsts t1 = tinsts t2 -> lookups true t1 cs = lookups false t2 cs.
 Proof. exact ConfigProofs.lookups_transparent. Qed.
 Print Assumptions cache_transparent.
 
 Example cache_transparent_nonvacuous :
-  cache_ok (fresh_type [("Len", 7); ("Hash", 9)]%string) /\
-  lookups true (fresh_type [("Len", 7); ("Hash", 9)]%string) ["Hash"; "Len"; "Hash"; "Cmp"]%string = [Some 9; Some 7; Some 9; None].
-Proof. split; [apply fresh_type_ok | vm_compute; reflexivity]. Qed.
+  cls_of "Len" = Some 11 /\ cls_of "Hash" = Some 10 /\ cls_of "Cmp" = Some 9 /\ slot_of 10 = Some 6 /\
+  cache_ok (fresh_type [(11, 7); (10, 9)]) /\
+  lookups true (fresh_type [(11, 7); (10, 9)]) [10; 11; 10; 9] = [Some 9; Some 7; Some 9; None].
+Proof. repeat split; try apply fresh_type_ok; vm_compute; reflexivity. Qed.
 
 (* 4b. the soundness hypothesis cannot be dropped: a slot holding another class's instance changes the
        outcome of a call between cache on and cache off *)
 Theorem unsound_cache_configs_differ :
   exists T, same_insts T two_types /\
-    rout unit nat (run unit nat cfg_default (dbody (DCall 0 "Hash"%string)) tt T) <>
-    rout unit nat (run unit nat (cfg_build false true false) (dbody (DCall 0 "Hash"%string)) tt T).
+    rout unit nat (run unit nat cfg_default (dbody (DCall 0 10)) tt T) <>
+    rout unit nat (run unit nat (cfg_build false true false) (dbody (DCall 0 10)) tt T).
 Proof. exact ConfigProofs.unsound_cache_differs. Qed.
 Print Assumptions unsound_cache_configs_differ.
 
@@ -185,7 +186,7 @@ Theorem source_ngc_and_cache_sites :
   list_eqb pair_eqb cfg_ngc_blocks audited_ngc_blocks = true /\
   list_eqb pair_eqb cfg_cache_uses audited_cache_uses = true /\
   nodupb (map fst cfg_cache_wiring) = true /\
-  forallb (fun w : nat * string => Nat.ltb (fst w) cello_cache_num) cfg_cache_wiring = true /\
+  forallb (fun w : nat * nat => andb (Nat.ltb (fst w) cello_cache_num) (Nat.ltb (snd w) (List.length cfg_class_names))) cfg_cache_wiring = true /\
   List.length cfg_cache_wiring = cello_cache_num.
 Proof.
   exact (conj (proj1 ConfigProofs.ngc_cache_sites_audited)
